@@ -88,8 +88,9 @@ Lemma dec_all_digits n : forallb is_digit (dec n) = true.
 Proof. apply dec_aux_all_digits. reflexivity. Qed.
 
 (* ---- Python int(text) on ASCII text: [ws]* [+-]? digit ('_'? digit)* [ws]* ------------------ *)
+(* the characters int() strips: TAB LF VT FF CR SP (not FS GS RS US, although str.isspace holds for them) *)
 Definition is_py_space (c : N) : bool :=
-  ((9 <=? c) && (c <=? 13)) || ((28 <=? c) && (c <=? 32)).
+  ((9 <=? c) && (c <=? 13)) || (c =? 32).
 Fixpoint lstrip_ws (l : list N) : list N :=
   match l with c :: t => if is_py_space c then lstrip_ws t else l | [] => [] end.
 Definition strip_ws (l : list N) : list N := rev (lstrip_ws (rev (lstrip_ws l))).
@@ -126,7 +127,7 @@ Proof. destruct l as [|c t]; cbn; [reflexivity|]. intros ->. reflexivity. Qed.
 
 Lemma digit_not_space c : is_digit c = true -> is_py_space c = false.
 Proof. unfold is_digit, is_py_space. intros H. apply andb_prop in H as [H1 H2]. apply N.leb_le in H1, H2.
-  apply orb_false_intro; apply andb_false_intro2 || apply andb_false_intro1; apply N.leb_gt; lia. Qed.
+  apply orb_false_intro; [apply andb_false_intro2; apply N.leb_gt; lia|apply N.eqb_neq; lia]. Qed.
 
 Lemma digit_lt128 c : is_digit c = true -> (128 <=? c) = false.
 Proof. unfold is_digit. intros H. apply andb_prop in H as [H1 H2]. apply N.leb_le in H1, H2. apply N.leb_gt. lia. Qed.
